@@ -1,7 +1,7 @@
 //! Native side of the verification machinery: dumps tables of the real build (engine T) and
 //! evaluates float kernels natively for translator validation (engine F).
 use grass_compiler::verif as v;
-use grass_compiler::sass_value::Unit;
+use grass_compiler::sass_value::{Number, Unit};
 
 /// Fixed numbering of the simple units used by the generated table and by the harnesses.
 pub const UNITS: [(&str, Unit); 34] = [
@@ -70,6 +70,10 @@ fn bits(s: &str) -> f64 {
 fn eval(kernel: &str, a: &[f64]) -> u64 {
     match kernel {
         "fuzzy_round" => v::fuzzy_round(a[0]).to_bits(),
+        "from_hwb_r" | "from_hwb_g" | "from_hwb_b" => {
+            let c = grass_compiler::sass_value::Color::from_hwb(Number(a[0]), Number(a[1]), Number(a[2]), Number(1.0));
+            match kernel { "from_hwb_r" => c.red().0.to_bits(), "from_hwb_g" => c.green().0.to_bits(), _ => c.blue().0.to_bits() }
+        }
         "fuzzy_equals" => v::fuzzy_equals(a[0], a[1]) as u64,
         "fuzzy_less_than" => v::fuzzy_less_than(a[0], a[1]) as u64,
         "fuzzy_less_than_or_equals" => v::fuzzy_less_than_or_equals(a[0], a[1]) as u64,
@@ -138,6 +142,14 @@ fn check_prop(args: &[String]) {
                 if frac > 0.5 + 1.0000001e-11 { chk(r == ce, "C07a: fuzzy_round rounds a negative number away from zero although it is further than 1e-11 from X.5"); }
                 if frac <= 0.5 + 4e-12 { chk(r == fl, "C07a: fuzzy_round rounds a negative number at or beyond X.5 (within 4e-12) towards zero"); }
             }
+        }
+        "c15_from_hwb" => {
+            let c = grass_compiler::sass_value::Color::from_hwb(Number(a[0]), Number(a[1]), Number(a[2]), Number(1.0));
+            let (r, g, b) = (c.red().0, c.green().0, c.blue().0);
+            chk(r >= 0.0 && r <= 255.0 && r == r.floor(), "C15c: from_hwb red channel is not an integer in [0,255]");
+            chk(g >= 0.0 && g <= 255.0 && g == g.floor(), "C15c: from_hwb green channel is not an integer in [0,255]");
+            chk(b >= 0.0 && b <= 255.0 && b == b.floor(), "C15c: from_hwb blue channel is not an integer in [0,255]");
+            chk(c.alpha().0 == 1.0, "C15c: from_hwb changed an in-range alpha");
         }
         "c07_modulo" => {
             let (n1, n2) = (a[0], a[1]);
